@@ -2,6 +2,7 @@ package seqmodel
 
 import (
 	"errors"
+	"google.golang.org/protobuf/reflect/protoreflect"
 
 	"google.golang.org/grpc/codes"
 	"google.golang.org/grpc/status"
@@ -85,7 +86,14 @@ func (m *Model) WriteOptions(o Opts, res *Result) []resource.WriteOption {
 		wo = append(wo, resource.WithGenIDIfAbsent())
 	}
 	if o.IDCallback {
-		wo = append(wo, resource.WithIDCallback(func(id string) { res.GenIDs = append(res.GenIDs, id) }))
+		wo = append(wo, resource.WithIDCallback(func(id string) {
+			res.GenIDs = append(res.GenIDs, id)
+			if o.IDIntoField != "" && res.written != nil {
+				if fd := res.written.ProtoReflect().Descriptor().Fields().ByName(protoreflect.Name(o.IDIntoField)); fd != nil {
+					res.written.ProtoReflect().Set(fd, protoreflect.ValueOfString(id))
+				}
+			}
+		}))
 	}
 	if o.CreatedCB {
 		wo = append(wo, resource.WithCreatedCallback(func() { res.CreatedCBs++ }))
@@ -143,11 +151,13 @@ func (m *Model) ExecCollection(c *resource.Collection, op Op) Result {
 	case List:
 		res.List = c.List(op.Opts.ReadOptions()...)
 	case Add:
-		msg, err := c.Add(op.ID, proto.Clone(op.Val), m.WriteOptions(op.Opts, &res)...)
+		res.written = proto.Clone(op.Val)
+		msg, err := c.Add(op.ID, res.written, m.WriteOptions(op.Opts, &res)...)
 		res.Msg = msg
 		setErr(&res, err)
 	case Update:
-		msg, err := c.Update(op.ID, proto.Clone(op.Val), m.WriteOptions(op.Opts, &res)...)
+		res.written = proto.Clone(op.Val)
+		msg, err := c.Update(op.ID, res.written, m.WriteOptions(op.Opts, &res)...)
 		res.Msg = msg
 		setErr(&res, err)
 	case Delete:
